@@ -476,3 +476,105 @@ SCENARIOS += [
              trusted=["ONNX Transpose: output.shape[i] = input.shape[perm[i]]"], max_paths=20000)
     for n in (1, 2, 3)
 ]
+
+
+# ------------------------------------------------------------------ TransposeTranspose for EVERY rank (deductive) ---
+
+def s_transpose_transpose_anyrank(ctx):
+    """Transpose(Transpose(x, p1), p2) for permutations of ANY length n: the fused perm computed by the real _apply_transposes /
+    _apply_transpose (list built by item assignment in a loop: inductive invariant) has, at an arbitrary (Skolem) position j0, the value
+    p1[p2[j0]]; Identity is returned only if the composition is the identity."""
+    from pyvc.interp import LoopSpec
+    from pyvc.values import SInt, SSeq
+    from onnxscript.rewriter.rules.common import _basic_rules as mod
+    import onnx_ir as ir
+    I = Interp(ctx)
+    I.quant_skolem = True
+    W = World(I)
+    I_ = z3.IntSort()
+    n = ctx.int("rank")
+    ctx.assume(n >= 0)
+    j0 = ctx.int("j0")
+    ctx.assume(z3.And(j0 >= 0, j0 < n))
+    ctx.witness.update(rank=n, j0=j0)
+    P = {"perm1": z3.Function("perm1", I_, I_), "perm2": z3.Function("perm2", I_, I_)}
+
+    def perm_seq(nm):
+        def get(i):
+            i = z3.simplify(i)
+            ctx.assume(z3.And(P[nm](i) >= 0, P[nm](i) < n))    # a valid perm attribute: entries are axes of the input
+            return SInt(P[nm](i))
+        return SSeq(n, get, name=nm)
+    attrs = []
+    for nm in ("perm1", "perm2"):
+        a = SObj(ir.Attr, nm)
+
+        def as_ints():
+            raise AssertionError
+
+        def is_ref():
+            raise AssertionError
+        I.models[as_ints] = lambda interp, nm=nm: perm_seq(nm)
+        I.models[is_ref] = lambda interp: False
+        a.fields.update(as_ints=as_ints, is_ref=is_ref)
+        attrs.append(a)
+    # positions of interest: j0 in the second application, p2[j0] in the first one
+    ctx.assume(z3.And(P["perm2"](j0) >= 0, P["perm2"](j0) < n))
+    S = [j0, P["perm2"](j0)]
+    H = {}
+
+    def elem(seq, s):
+        """term of seq[s] without forking (base function + ghost log of item assignments)"""
+        base = getattr(seq, "base_fn", None)
+        t = base(s) if base is not None else term(seq.at(s))
+        for idx, v in getattr(seq, "stored", []):
+            t = z3.If(s == idx, term(v), t)
+        return t
+
+    def mk_res(interp):
+        R = z3.Function(ctx.fresh("res"), I_, I_)
+        L = ctx.int("len_res")
+        ctx.assume(L >= 0)
+        r = SSeq(L, lambda i: SInt(R(z3.simplify(i))), name="res")
+        r.mutable = True
+        r.base_fn = R
+        return r
+
+    def inv(interp, env, k, pre, it):
+        res, on, perm = env.lookup("res"), env.lookup("on"), env.lookup("perm")
+        out = [("res_has_the_length_of_on", res.len == on.len)]
+        for tag, s in zip(("j0", "p2_j0"), S):
+            ps = term(perm.at(s))
+            out.append((f"res_at_{tag}_is_on_at_perm_{tag}_once_passed",
+                        z3.Implies(z3.And(k > s, s < perm.len), elem(res, s) == elem(on, ps))))
+        return out
+    I.loops[("TransposeTranspose._apply_transpose", 0)] = LoopSpec({"res": mk_res}, inv)
+    rule = SObj(mod.TransposeTranspose, "rule")
+    x = W.value("x", dims=None, rt=[], dtype=ir.DataType.FLOAT)
+    op = OpRec()
+    try:
+        r = I.call(I.getattr(rule, "rewrite"), [op, x, attrs[0], attrs[1]])
+    except PyRaise:
+        ctx.check("C04.rules.TransposeTranspose.any_rank.rewrite_never_raises", False, "C04")
+        return
+    want = P["perm1"](P["perm2"](j0))
+    CLT = "C05: perm composition — axis i of Transpose(Transpose(x, p1), p2) is axis p1[p2[i]] of x (every rank)"
+    if isinstance(r, Call) and r.op == "Identity":
+        I.instantiate_forall(j0)
+        ctx.cover("TransposeTranspose.any_rank.identity")
+        ctx.check("C05.rules.TransposeTranspose.any_rank.identity_only_when_the_composition_is_the_identity", want == j0, CLT)
+        return
+    ok = isinstance(r, Call) and r.op == "Transpose" and r.args and r.args[0] is x and isinstance(r.kwargs.get("perm"), SSeq)
+    ctx.check("C05.rules.TransposeTranspose.any_rank.replacement_is_one_transpose_of_x", ok, CLT)
+    if ok:
+        ctx.cover("TransposeTranspose.any_rank.transpose")
+        last = r.kwargs["perm"]
+        ctx.check("C05.rules.TransposeTranspose.any_rank.fused_perm_has_the_rank_of_x", last.len == n, CLT)
+        ctx.check("C05.rules.TransposeTranspose.any_rank.fused_perm_is_p1_after_p2", elem(last, j0) == want, CLT)
+
+
+SCENARIOS.append(Scenario("C05.rules.basic.TransposeTranspose[any rank]", s_transpose_transpose_anyrank,
+                          [(RC + "_basic_rules.py", "TransposeTranspose.rewrite"), (RC + "_basic_rules.py", "TransposeTranspose._apply_transposes"),
+                           (RC + "_basic_rules.py", "TransposeTranspose._apply_transpose")],
+                          trusted=["ONNX Transpose: output.shape[i] = input.shape[perm[i]]; a valid perm attribute lists axes of the input"],
+                          assumptions=["loop invariant stated at the two Skolem positions j0 and p2[j0]; `first == last` used at j0 only; termination not proved"]))
